@@ -239,6 +239,8 @@ def _matcher_ok(ctx, am, fn):
         return False, "matcher takes no message"
     cases = [
         ("ExtendedMessage(sub id 0xFF30)", FakeObj("ExtendedMessage", message_id=0x1F, sub_message=FakeObj("ConsoleVersionMessage", message_id=0xFF30)), True),
+        ("ExtendedMessage(sub id 0xFF30, zero-length echo decoded as ConsoleVersionRequest)", FakeObj("ExtendedMessage", message_id=0x1F, sub_message=FakeObj("ConsoleVersionRequest", message_id=0xFF30)), True),
+        ("ExtendedMessage(sub id 0xFF30, unsupported payload)", FakeObj("ExtendedMessage", message_id=0x1F, sub_message=FakeObj("UnsupportedMessage", message_id=0xFF30)), True),
         ("ExtendedMessage(sub id 0xFF10)", FakeObj("ExtendedMessage", message_id=0x1F, sub_message=FakeObj("AcErrorInformationMessage", message_id=0xFF10)), False),
         ("ExtendedMessage(sub id 0xFF11)", FakeObj("ExtendedMessage", message_id=0x1F, sub_message=FakeObj("AcAbilityMessage", message_id=0xFF11)), False),
         ("a status message with id 0x2D", FakeObj("AcStatusMessage", message_id=0x2D), False),
